@@ -8,6 +8,7 @@ import (
 	"fmt"
 	"testing"
 
+	kcp "github.com/xtaci/kcp-go/v5"
 	"pgregory.net/rapid"
 	"verif/harness/hx"
 	"verif/harness/sim"
@@ -322,4 +323,93 @@ func runUntilDrainedAfter(s *sim.CoreSim, cfg sim.CoreCfg, fs *sim.FateScript, a
 		}
 	}
 	return err
+}
+
+// TestC02Session: the same bounded-liveness property through real sessions
+// (scheduler-driven update, post-processing goroutine, FEC and cipher
+// framing, write-delay and ack-no-delay switches, listener or dialled server
+// end): after any fault script, with readers that keep reading, everything
+// written is read and both send backlogs return to zero. Progress-based
+// oracle (see runPairUntilComplete); afterwards the backlogs must drain too.
+func TestC02Session(t *testing.T) {
+	rec := hx.NewRecorder(t)
+	opts := sim.FateOpts{MaxExplicit: 20, MaxRegimes: 3, MaxRegLen: 120, MaxDelay: 1500, MaxOutageMs: 400_000, MaxOutages: 2}
+	rapid.Check(t, func(rt *rapid.T) {
+		cfg := drawPairCfg(rt, pairGenOpts{})
+		fs := sim.DrawFateScript(rt, opts)
+		app := drawSessApps(rt, pairMSS(cfg), 20, 80_000)
+		var d snmpDelta
+		outageHit, drained := false, false
+		rapid.SyncTest(rt, func(rt *rapid.T) {
+			before := kcp.DefaultSnmp.Copy()
+			s := sim.NewSessSim(cfg.ClockOff, cfg.EntropySeed)
+			p, err := sim.NewPair(s, cfg, app)
+			if err != nil {
+				rt.Fatalf("setup: %v", err)
+			}
+			defer p.Finish(nil)
+			setPairLinks(s, p, fs)
+			ivSum := cfg.Opts[0].Interval + cfg.Opts[1].Interval
+			err = runPairUntilComplete(p, s, fs.EndTime(), 0, ivSum)
+			if err == nil && p.Complete() {
+				// the backlogs: acknowledgements of the tail must get through as well
+				last, lastAt := pairSignature(p), s.Now()
+				for err == nil && !p.Drained() {
+					err = p.Run(s.Now()+20_000, true)
+					if sig := pairSignature(p); sig != last {
+						last, lastAt = sig, s.Now()
+						continue
+					}
+					if !s.ScriptsDone() {
+						lastAt = s.Now() // datagram-counted faults still in progress
+						if s.Now() > 6*3600_000 {
+							err = errScriptUnfinished
+						}
+						continue
+					}
+					if allow := pairAllowance(p, 4*int64(ivSum)); s.Now()-lastAt > allow {
+						w0, w1 := 0, 0
+						p.Sess[0].VerifWithKCP(func(k *kcp.KCP) { w0 = k.WaitSnd() })
+						p.Sess[1].VerifWithKCP(func(k *kcp.KCP) { w1 = k.WaitSnd() })
+						err = fmt.Errorf("everything was read, but the send backlogs (%d and %d segments) have not moved since %d ms (now %d ms, allowance %d ms)", w0, w1, lastAt, s.Now(), allow)
+					}
+				}
+				drained = err == nil && p.Drained()
+			}
+			outageHit = s.Dropped > 0
+			d = snmpSince(before)
+			if err == errScriptUnfinished {
+				rec.Class("script_unfinished_inconclusive", 1)
+				err = nil
+			}
+			if err != nil {
+				rt.Fatalf("C02 (session): %v\ncase: %+v", err, describePair(cfg, fs, app))
+			}
+		})
+		cl := []string{"cipher_" + cfg.Cipher}
+		if cfg.FEC[0][0] > 0 {
+			cl = append(cl, "fec_on")
+		}
+		if cfg.Listener {
+			cl = append(cl, "via_listener")
+		}
+		if d.Retrans > 0 {
+			cl = append(cl, "retransmission")
+		}
+		if d.Lost > 0 {
+			cl = append(cl, "rto_retransmission")
+		}
+		if len(fs.Outages) > 0 {
+			cl = append(cl, "timed_outage")
+		}
+		if drained {
+			cl = append(cl, "read_and_drained")
+		}
+		rec.Case(hx.Hash64(describePair(cfg, fs, app)), outageHit && d.Retrans > 0, cl...)
+		if rec.WantSample() {
+			dd := describePair(cfg, fs, app)
+			dd["snmp_delta"] = d
+			rec.Sample(dd)
+		}
+	})
 }
